@@ -4,6 +4,7 @@ import PsVerif.Model.T1Encode
 import Driver.Canon
 import PsVerif.Model.PFB
 import PsVerif.Model.PFBEager
+import PsVerif.Model.T1Writers
 import PsVerif.Model.Names
 import PsVerif.Model.Query
 import PsVerif.Model.T1Decode
@@ -54,6 +55,17 @@ def csResult (subrs : List (List Nat)) (code : List Nat) : String :=
     let g := d.res
     "ok w=" ++ ratStr g.widthX ++ "," ++ ratStr g.widthY ++ " cmds=" ++ String.intercalate ";" (g.cmds.map cmdStr) ++
       " hs=" ++ String.intercalate "," (g.hstem.map toString) ++ " vs=" ++ String.intercalate "," (g.vstem.map toString)
+
+/-- the buffering stream writers of package type1 over an underlying writer that fails at call `failAt` -/
+def writersLine (eexec : Bool) (failAt chunks : String) : String :=
+  let fa : Option (Option Nat) := if failAt == "-" then some none else failAt.toNat?.map some
+  let cs : Option (List (List Nat)) := if chunks == "none" then some [] else mapM? bytesOfHex (chunks.splitOn ",")
+  match fa, cs with
+  | some fa, some cs =>
+    let r := if eexec then T1Writers.runEexec fa (cs.map toU8) else T1Writers.runHex fa (cs.map toU8)
+    ",".intercalate (r.1.map toString) ++ ";" ++ (if r.2.1 then "ok" else "err") ++ ";" ++
+      "|".intercalate (r.2.2.map (fun b => hexOfBytes (ofU8 b)))
+  | _, _ => "bad-op"
 
 def handle (line : String) : String :=
   match line.splitOn " " with
@@ -149,6 +161,8 @@ def handle (line : String) : String :=
         hexOfBytes (ofU8 c.1) ++ ":" ++ (match c.2 with
           | none => "nil" | some .eof => "EOF" | some .unexpectedEOF => "unexpectedEOF" | some .invalidPFB => "invalidPFB")))
     | _, _, _ => "bad-op"
+  | ["eexecw", failAt, chunks] => writersLine true failAt chunks
+  | ["hexw", failAt, chunks] => writersLine false failAt chunks
   | ["glist", keys, enc] =>
     match mapM? bytesOfHex (splitList keys ","), mapM? bytesOfHex (splitList enc ",") with
     | some ks, some en => String.intercalate "," ((Query.glyphList ks en).map hexOfBytes) ++ " " ++ toString (Query.numGlyphs ks)
